@@ -15,6 +15,7 @@
 import SygmaModel.Proofs.C01Src
 import SygmaModel.Proofs.C01Btc
 import SygmaModel.Proofs.C01Abi
+import SygmaModel.Proofs.C01Relay
 namespace Sygma.C01
 
 section Helpers
@@ -73,12 +74,27 @@ theorem erc20_evm_to_btc (id : Ident) (d : Fungible) (resp : Bytes) (n : Nat) (h
     relay ⟨.erc20, .btc, id, Src.fungible d, resp, n⟩ =
       .ok ⟨id, .btc (effAmount d.amount resp / 10 ^ 10) d.recipient, none⟩ := by
   have he := amountWord_eq d.amount resp hr
-  simp only [relay, source, dest, erc20_src id d resp h hr, ho]
-  have hfit' : effAmount d.amount resp / 10000000000 < 18446744073709551616 := by simpa using hfit
-  simp [btcHandle, he, beToNat_pad32, hfit']
+  have hsrc := erc20_src id d resp h hr
+  rw [ho] at hsrc
+  exact relay_ok (by rw [source_erc20]; exact hsrc)
+    (by rw [dest_btc]; exact btcHandle_ok _ _ _ _ _ (by rw [he, beToNat_pad32]) hfit)
 
 example : (⟨12345678900000000000, List.replicate 42 49, none⟩ : Fungible).WF ∧
     effAmount 12345678900000000000 [] / 10 ^ 10 < 2 ^ 64 := by decide
+
+/-- excluded point with a definite outcome: an amount whose ÷10^10 rescaling does not fit uint64 satoshi is refused by the
+    Bitcoin destination (after `fix:` 97b0590; it used to be truncated to its low 64 bits) — no proposal is prepared -/
+theorem erc20_evm_to_btc_refused (id : Ident) (d : Fungible) (resp : Bytes) (n : Nat) (h : d.WF) (hr : RespWF resp)
+    (ho : d.opt = none) (hbig : ¬ effAmount d.amount resp / 10 ^ 10 < 2 ^ 64) :
+    relay ⟨.erc20, .btc, id, Src.fungible d, resp, n⟩ = .errDst := by
+  have he := amountWord_eq d.amount resp hr
+  have hsrc := erc20_src id d resp h hr
+  rw [ho] at hsrc
+  exact relay_errDst (by rw [source_erc20]; exact hsrc)
+    (by rw [dest_btc]; exact btcHandle_big _ _ _ _ (by rw [he, beToNat_pad32]; exact hbig))
+
+example : (⟨2 ^ 64 * 10 ^ 10, List.replicate 42 49, none⟩ : Fungible).WF ∧
+    ¬ effAmount (2 ^ 64 * 10 ^ 10) [] / 10 ^ 10 < 2 ^ 64 := by decide
 
 /-! ### fungible: Substrate source -/
 
@@ -96,9 +112,13 @@ theorem sub_to_sub (id : Ident) (d : Fungible) (h : d.WF) :
 
 theorem sub_to_btc (id : Ident) (d : Fungible) (h : d.WF) (hfit : d.amount / 10 ^ 10 < 2 ^ 64) :
     relay ⟨.sub, .btc, id, Src.fungible d, [], 0⟩ = .ok ⟨id, .btc (d.amount / 10 ^ 10) d.recipient, none⟩ := by
-  simp only [relay, source, dest, sub_src id d h]
-  have hfit' : d.amount / 10000000000 < 18446744073709551616 := by simpa using hfit
-  simp [btcHandle, beToNat_pad32, hfit']
+  exact relay_ok (by rw [source_sub]; exact sub_src id d h)
+    (by rw [dest_btc]; exact btcHandle_ok _ _ _ _ _ (by rw [beToNat_pad32]) hfit)
+
+theorem sub_to_btc_refused (id : Ident) (d : Fungible) (h : d.WF) (hbig : ¬ d.amount / 10 ^ 10 < 2 ^ 64) :
+    relay ⟨.sub, .btc, id, Src.fungible d, [], 0⟩ = .errDst := by
+  exact relay_errDst (by rw [source_sub]; exact sub_src id d h)
+    (by rw [dest_btc]; exact btcHandle_big _ _ _ _ (by rw [beToNat_pad32]; exact hbig))
 
 /-! ### ERC721 and permissionless generic (EVM → EVM) -/
 
@@ -145,9 +165,14 @@ theorem btc_to_btc (id : Ident) (sat : Nat) (addr : Bytes) (dst : Nat) (ha : add
     (hfit : sat < 2 ^ 64) :
     relay ⟨.btc, .btc, id, Src.btcText addr dst, [], sat⟩ =
       .ok ⟨⟨id.src, dst, id.nonce, id.rid⟩, .btc sat addr, none⟩ := by
-  simp only [relay, source, dest, btc_src id.src id.nonce id.rid sat addr dst ha hd]
-  have hfit' : sat < 18446744073709551616 := by simpa using hfit
-  simp [btcHandle, beToNat_natToBE, hfit']
+  exact relay_ok (by rw [source_btc]; exact btc_src id.src id.nonce id.rid sat addr dst ha hd)
+    (by rw [dest_btc]; exact btcHandle_ok _ _ _ _ sat (div_rescale sat) hfit)
+
+theorem btc_to_btc_refused (id : Ident) (sat : Nat) (addr : Bytes) (dst : Nat) (ha : addr.length = 20) (hd : dst < 256)
+    (hbig : ¬ sat < 2 ^ 64) :
+    relay ⟨.btc, .btc, id, Src.btcText addr dst, [], sat⟩ = .errDst := by
+  exact relay_errDst (by rw [source_btc]; exact btc_src id.src id.nonce id.rid sat addr dst ha hd)
+    (by rw [dest_btc]; exact btcHandle_big _ _ _ _ (by rw [div_rescale]; exact hbig))
 
 example : (List.replicate 20 (171 : UInt8)).length = 20 ∧ (2 : Nat) < 256 ∧ 2100000000000000 * 10 ^ 10 < 2 ^ 256 := by decide
 
@@ -185,13 +210,19 @@ theorem expected_sound (i : Input) (e : Out) (h : expected i = some e) : relay i
         by_cases ho : d.opt = none
         · rw [if_pos ho] at h; simp only [Option.some.injEq] at h; rw [← h]
           exact erc20_evm_to_sub id d resp num hwf hr ho
-        · rw [if_neg ho] at h; cases h
+        · rw [if_neg ho] at h; simp only [Option.some.injEq] at h; rw [← h]
+          exact erc20_optmsg_refused id d resp num hwf hr ho .sub (by decide)
       | btc =>
         simp only [] at h
-        by_cases ho : d.opt = none ∧ effAmount d.amount resp / 10 ^ 10 < 2 ^ 64
-        · rw [if_pos ho] at h; simp only [Option.some.injEq] at h; rw [← h]
-          exact erc20_evm_to_btc id d resp num hwf hr ho.1 ho.2
-        · rw [if_neg ho] at h; cases h
+        by_cases ho : d.opt = none
+        · rw [if_pos ho] at h
+          by_cases hf : effAmount d.amount resp / 10 ^ 10 < 2 ^ 64
+          · rw [if_pos hf] at h; simp only [Option.some.injEq] at h; rw [← h]
+            exact erc20_evm_to_btc id d resp num hwf hr ho hf
+          · rw [if_neg hf] at h; simp only [Option.some.injEq] at h; rw [← h]
+            exact erc20_evm_to_btc_refused id d resp num hwf hr ho hf
+        · rw [if_neg ho] at h; simp only [Option.some.injEq] at h; rw [← h]
+          exact erc20_optmsg_refused id d resp num hwf hr ho .btc (by decide)
     · rw [if_neg hc] at h; cases h
   | sub =>
     simp only [] at h
@@ -216,10 +247,9 @@ theorem expected_sound (i : Input) (e : Out) (h : expected i = some e) : relay i
         simp only [] at h
         by_cases hf : d.amount / 10 ^ 10 < 2 ^ 64
         · rw [if_pos hf] at h; simp only [Option.some.injEq] at h; rw [← h]
-          have := sub_to_btc id d hwf hf
-          simp only [relay, source, dest] at this ⊢
-          exact this
-        · rw [if_neg hf] at h; cases h
+          exact sub_to_btc id d hwf hf
+        · rw [if_neg hf] at h; simp only [Option.some.injEq] at h; rw [← h]
+          exact sub_to_btc_refused id d hwf hf
     · rw [if_neg hc] at h; cases h
   | erc721 =>
     simp only [] at h
@@ -290,10 +320,9 @@ theorem expected_sound (i : Input) (e : Out) (h : expected i = some e) : relay i
           simp only [] at h
           by_cases hf : num < 2 ^ 64
           · rw [if_pos hf] at h; simp only [Option.some.injEq] at h; rw [← h]
-            have := btc_to_btc id num addr dst ha hdl hf
-            simp only [relay, source, dest] at this ⊢
-            exact this
-          · rw [if_neg hf] at h; cases h
+            exact btc_to_btc id num addr dst ha hdl hf
+          · rw [if_neg hf] at h; simp only [Option.some.injEq] at h; rw [← h]
+            exact btc_to_btc_refused id num addr dst ha hdl hf
       · rw [if_neg hc] at h; cases h
     · cases h
 
@@ -332,9 +361,12 @@ theorem expectedMsg_sound (dk : DstKind) (m : Msg) (e : Out) (h : expectedMsg dk
     split at h
     · next ha =>
       simp only [Option.some.injEq] at h; rw [← h]
-      have ha' : beToNat a / 10000000000 < 18446744073709551616 := by simpa using ha
-      simp [destOut, dest, btcHandle, ha']
-    · cases h
+      show (match dest .btc _ with | .ok p => Out.ok p | .err => .errDst | .panic => .panicDst) = _
+      rw [dest_btc, btcHandle_ok _ _ _ _ _ rfl ha]
+    · next hbig =>
+      simp only [Option.some.injEq] at h; rw [← h]
+      show (match dest .btc _ with | .ok p => Out.ok p | .err => .errDst | .panic => .panicDst) = _
+      rw [dest_btc, btcHandle_big _ _ _ _ hbig]
   · next _ _ _ t r md ht hp =>
     subst ht hp
     split at h
